@@ -67,9 +67,19 @@ Definition plain_cookie_line (line : string) : bool := forallb good_cookie_part 
 
 Definition plain_line (line : string) : bool := String.eqb (trim_string line) line && plain_cookie_line line.
 
+(** a part concerns the name [n] when one of the two readers takes its name to be [n] *)
+Definition concerns (n p : string) : bool :=
+  String.eqb (trim_string (fst (GoUrl.cut_on "=" (trim_string p)))) n ||
+  (has_byte "=" p && String.eqb (trim_space (fst (GoUrl.cut_on "=" p))) n).
+
+(** the parts of the line that concern [n] are all of the plain form *)
+Definition plain_for (n line : string) : bool :=
+  String.eqb (trim_string line) line &&
+  forallb (fun p => negb (concerns n p) || good_cookie_part p) (split_on ";" line).
+
 Definition g_F5_query (L : lreq) (q : query) : bool :=
   match q with
-  | QCookie n => negb (forallb plain_line (values "Cookie" (http_hdrs L)))
+  | QCookie n => negb (forallb (plain_for n) (values "Cookie" (http_hdrs L)))
   | _ => false
   end.
 
@@ -101,6 +111,13 @@ Definition g_F7_query (decode : string -> string -> value) (L : lreq) (q : query
   match q with
   | QBody => String.eqb (l_body L) "" &&
              negb (value_is (decode (header_http (http_hdrs L) (l_host L) "Content-Type") "") json_empty_string)
+  | _ => false
+  end.
+
+(** C13-F9: the body of a request whose body Envoy conveys in the string field [body] only *)
+Definition g_F9_query (L : lreq) (q : query) : bool :=
+  match q with
+  | QBody => match l_pack L with PackBody => nonempty (l_body L) | _ => false end
   | _ => false
   end.
 
@@ -692,24 +709,54 @@ Proof.
   apply String.eqb_eq in E. rewrite E in V. discriminate.
 Qed.
 
-(** C13, cookies: on a plain Cookie line both readers find the same value *)
+(** a part that does not concern [n] is skipped by both readers *)
+Lemma unconcerned_part n p : concerns n p = false -> http_cookie_part n p = None /\ envoy_cookie_part n p = None.
+Proof.
+  unfold concerns. intro H. apply orb_false_iff in H as [H1 H2]. split.
+  - unfold http_cookie_part. destruct (String.eqb (trim_string p) ""); [reflexivity|].
+    destruct (GoUrl.cut_on "=" (trim_string p)) as [a b0]. cbn [fst] in H1.
+    destruct (cookie_name_valid (trim_string a)); [|reflexivity]. cbn [negb]. rewrite H1. reflexivity.
+  - unfold envoy_cookie_part. destruct (has_byte "=" p); [|reflexivity]. cbn [andb] in H2.
+    destruct (GoUrl.cut_on "=" p) as [a b0]. cbn [fst] in H2. rewrite H2. reflexivity.
+Qed.
+
+(** C13, cookies: both readers find the same value under the name [n] whenever the parts of the
+    Cookie line that concern [n] are plain — whatever the other parts look like *)
 Lemma cookie_line_agree n line :
-  plain_line line = true ->
+  plain_for n line = true ->
   http_cookie [line] n =
   match first_some (envoy_cookie_part n) (split_on ";" line) with Some v => v | None => "" end.
 Proof.
-  unfold plain_line, plain_cookie_line. intro P. apply andb_true_iff in P as [P1 P2].
+  unfold plain_for. intro P. apply andb_true_iff in P as [P1 P2].
   apply String.eqb_eq in P1. rewrite forallb_forall in P2.
   unfold http_cookie. cbn [first_some]. rewrite P1.
+  assert (PW : forall x, In x (split_on ";" line) -> http_cookie_part n x = envoy_cookie_part n x \/
+                          (concerns n x = true /\ good_cookie_part x = true)).
+  { intros x Hx. specialize (P2 x Hx). destruct (concerns n x) eqn:C.
+    - right. split; [reflexivity | exact P2].
+    - left. destruct (unconcerned_part n x C) as [A B]. rewrite A, B. reflexivity. }
   destruct (String.eqb n "") eqn:En.
   - apply String.eqb_eq in En. subst n.
     assert (F : first_some (envoy_cookie_part "") (split_on ";" line) = None).
     { induction (split_on ";" line) as [|x l IH]; [reflexivity|]. cbn [first_some].
-      rewrite (good_part_empty_name x (P2 x (or_introl eq_refl))). apply IH. intros y Hy. apply P2. right; exact Hy. }
+      assert (E : envoy_cookie_part "" x = None).
+      { specialize (P2 x (or_introl eq_refl)). destruct (concerns "" x) eqn:C.
+        - apply good_part_empty_name. exact P2.
+        - apply (unconcerned_part "" x C). }
+      rewrite E. apply IH.
+      + intros y Hy. apply PW. right; exact Hy.
+      + intros y Hy. apply P2. right; exact Hy. }
     rewrite F. reflexivity.
   - rewrite (first_some_ext (http_cookie_part n) (envoy_cookie_part n)).
     + destruct (first_some (envoy_cookie_part n) (split_on ";" line)); reflexivity.
-    + intros x Hx. apply good_part_agree. apply P2. exact Hx.
+    + intros x Hx. destruct (PW x Hx) as [E|[_ G]]; [exact E | apply good_part_agree; exact G].
+Qed.
+
+(** in particular on a line all of whose parts are plain, for every name *)
+Lemma plain_line_plain_for n line : plain_line line = true -> plain_for n line = true.
+Proof.
+  unfold plain_line, plain_for, plain_cookie_line. intro P. apply andb_true_iff in P as [P1 P2].
+  rewrite P1. cbn [andb]. rewrite forallb_forall in *. intros x Hx. rewrite (P2 x Hx). apply orb_true_r.
 Qed.
 
 (* ------------------------------------------------------------------ URL.String() *)
@@ -782,7 +829,7 @@ Section Agree.
   Definition guard_query (fx : fixes) (s : slashes) (caps : list (string * string)) (L : lreq) (q : query) : bool :=
     (negb (fx_F1 fx) && g_F1_query caps s (fx_F4 fx) q) || (negb (fx_F2 fx) && g_F2_query (fx_F6 fx) L q) ||
     (negb (fx_F4 fx) && g_F4_query s L q) || g_F5_query L q || (negb (fx_F6 fx) && g_F6_query q) ||
-    (negb (fx_F7 fx) && g_F7_query decode L q) || g_F8_query q.
+    (negb (fx_F7 fx) && g_F7_query decode L q) || g_F8_query q || (negb (fx_F9 fx) && g_F9_query L q).
 
   Lemma assoc_opt_unesc_none s n caps :
     existsb (String.eqb n) (map fst caps) = false -> assoc_opt n (unesc_caps s caps) = None.
@@ -792,7 +839,7 @@ Section Agree.
   Qed.
 
   Lemma cookie_agree fx L n :
-    wf_lreqb L = true -> forallb plain_line (values "Cookie" (http_hdrs L)) = true ->
+    wf_lreqb L = true -> forallb (plain_for n) (values "Cookie" (http_hdrs L)) = true ->
     a_cookie (acc_http decode L) n = a_cookie (acc_envoy decode fx (mk_envoy L)) n.
   Proof.
     intros W P. destruct (wf_parts L W) as (Hh & Hc & _).
@@ -856,7 +903,7 @@ Section Agree.
   Proof.
     intros W G. unfold guard_query in G.
     repeat (apply orb_false_iff in G as [G ?]).
-    rename G into G1, H4 into G2, H3 into G4, H2 into G5, H1 into G6, H0 into G7, H into G8.
+    rename G into G1, H5 into G2, H4 into G4, H3 into G5, H2 into G6, H1 into G7, H0 into G8, H into G9.
     destruct (wf_parts L W) as (Hh & Hc & Hhost & Hs & Hv & p & Hu).
     destruct q; cbn [answer http_mech envoy_mech rv_method rv_scheme rv_host rv_path rv_rawpath rv_query rv_caps rv_ips];
       try reflexivity.
@@ -891,14 +938,23 @@ Section Agree.
     - (* QCookie *)
       f_equal. cbn [g_F5_query] in G5. apply negb_false_iff in G5. apply cookie_agree; assumption.
     - (* QBody *)
-      cbn [a_body acc_http acc_envoy mk_envoy e_hdrs e_body e_host]. unfold body_http.
+      cbn [a_body acc_http acc_envoy mk_envoy e_hdrs e_host]. unfold body_http.
       assert (Ct : header_http (http_hdrs L) (l_host L) "Content-Type" =
                    header_envoy fx (canonicalize_headers (envoy_wire_hdrs L)) (l_host L) "Content-Type").
       { apply header_agree; [exact W| |].
         - cbn [g_F2_query]. change (canon "Content-Type") with "Content-Type". rewrite eqb_refl_s.
           cbn [negb andb]. apply andb_false_r.
         - cbn [g_F6_query]. change (canon "Content-Type") with "Content-Type". cbn. apply andb_false_r. }
-      cbn [g_F7_query] in G7. rewrite <- Ct.
+      (* the bytes grpcv3 decodes are the request body, outside the guard of C13-F9 *)
+      assert (Raw : envoy_raw_body fx (mk_envoy L) = l_body L).
+      { unfold envoy_raw_body, mk_envoy. cbn [e_body e_rawbody]. cbn [g_F9_query] in G9.
+        destruct (l_pack L).
+        - rewrite eqb_refl_s, andb_true_r. destruct (fx_F9 fx); [reflexivity|].
+          cbn [negb andb] in G9. apply negb_false_iff, String.eqb_eq in G9. symmetry. exact G9.
+        - destruct (fx_F9 fx && String.eqb (l_body L) "") eqn:E; [|reflexivity].
+          apply andb_true_iff in E as [_ E]. apply String.eqb_eq in E. symmetry. exact E.
+        - destruct (fx_F9 fx && String.eqb (l_body L) "") eqn:E; reflexivity. }
+      rewrite Raw. cbn [g_F7_query] in G7. rewrite <- Ct.
       destruct (String.eqb (l_body L) "") eqn:B.
       + destruct (fx_F7 fx); [reflexivity|]. cbn [negb andb] in G7. apply negb_false_iff in G7.
         apply String.eqb_eq in B. rewrite B.
@@ -1126,7 +1182,15 @@ Proof. intro H. induction l as [|x l IH]; [reflexivity|]. cbn. rewrite H, IH. re
     (C13-F8) remain guarded *)
 Lemma all_fixed_guards decode s caps L q :
   guard_query decode all_fixed s caps L q = g_F5_query L q || g_F8_query q.
-Proof. unfold guard_query. cbn [all_fixed fx_F1 fx_F2 fx_F4 fx_F6 fx_F7 negb andb orb]. rewrite !orb_false_r. reflexivity. Qed.
+Proof. unfold guard_query. cbn [all_fixed fx_F1 fx_F2 fx_F4 fx_F6 fx_F7 fx_F9 negb andb orb]. rewrite !orb_false_r. reflexivity. Qed.
+
+(** the tree as it is: additionally the conveyance of the body (C13-F9) *)
+Lemma repo_guards decode s caps L q :
+  guard_query decode repo_now s caps L q = g_F5_query L q || g_F8_query q || g_F9_query L q.
+Proof.
+  unfold guard_query. cbn [repo_now set_F9 all_fixed fx_F1 fx_F2 fx_F4 fx_F6 fx_F7 fx_F9 negb andb orb].
+  rewrite !orb_false_r. reflexivity.
+Qed.
 
 Lemma repo_guards_fire decode find L :
   guards_fire decode find repo_now L =
@@ -1134,13 +1198,13 @@ Lemma repo_guards_fire decode find L :
   | None => false
   | Some (rl, caps) =>
     let ans := answer (acc_http decode L) (http_mech L (r_slashes rl) caps) in
-    existsb (fun q => g_F5_query L q || g_F8_query q) (trace ans (r_prog rl)) ||
+    existsb (fun q => g_F5_query L q || g_F8_query q || g_F9_query L q) (trace ans (r_prog rl)) ||
     g_F3_adds true (snd (run_prog ans (r_prog rl))) || g_F5_adds (snd (run_prog ans (r_prog rl)))
   end.
 Proof.
   unfold guards_fire. destruct (find (lookup_of (build_http L))) as [[rl caps]|]; [|reflexivity].
-  cbn [repo_now all_fixed fx_F3 fx_F4 negb andb orb]. cbv zeta.
-  f_equal. f_equal. apply existsb_ext_all. intro q. apply all_fixed_guards.
+  cbn [repo_now set_F9 all_fixed fx_F3 fx_F4 negb andb orb]. cbv zeta.
+  f_equal. f_equal. apply existsb_ext_all. intro q. apply repo_guards.
 Qed.
 
 (* ------------------------------------------------------------------ witnesses: every guard is needed, none is vacuous *)
@@ -1156,7 +1220,7 @@ Definition w_find (path : string) (rl : rule) (caps : list (string * string)) : 
 
 Definition w_req (method path : string) (hdrs : list (string * string)) (body : string) : lreq :=
   {| l_method := method; l_tls := false; l_host := "a.example.com"; l_rawpath := path; l_query := "";
-     l_hdrs := hdrs; l_body := body; l_peer := "10.0.0.1" |}.
+     l_hdrs := hdrs; l_body := body; l_peer := "10.0.0.1"; l_pack := PackRaw |}.
 
 Definition w_rule (id : string) (s : slashes) (authz : option cond) (steps : list step) : rule :=
   {| r_id := id; r_slashes := s; r_prog := pipeline_prog authz steps |}.
@@ -1320,7 +1384,7 @@ Definition nv_req : lreq :=
   {| l_method := "POST"; l_tls := true; l_host := "a.example.com:8443"; l_rawpath := "/files/2024%2Freport.pdf"; l_query := "v=2";
      l_hdrs := [("x-role", "admin"); ("X-ROLE", "lead"); ("Cookie", "sid=123; theme=dark"); ("content-type", "application/json");
                 ("Content-Length", "13")];
-     l_body := "{""user"":""u""}"; l_peer := "10.0.0.1" |}.
+     l_body := "{""user"":""u""}"; l_peer := "10.0.0.1"; l_pack := PackBoth |}.
 Definition nv_find := w_find "/files/2024%2Freport.pdf" nv_rule [("name", "2024%2Freport.pdf")].
 
 Example nonvacuous :
@@ -1339,10 +1403,24 @@ Definition nv2_rule : rule :=
 Definition nv2_req : lreq :=
   {| l_method := "POST"; l_tls := true; l_host := "a.example.com:8443"; l_rawpath := "/files/report.pdf"; l_query := "v=2";
      l_hdrs := [("content-type", "application/json"); ("Content-Length", "13")];
-     l_body := "{""user"":""u""}"; l_peer := "10.0.0.1" |}.
+     l_body := "{""user"":""u""}"; l_peer := "10.0.0.1"; l_pack := PackBoth |}.
 Definition nv2_find := w_find "/files/report.pdf" nv2_rule [("name", "report.pdf")].
 Example nonvacuous_pinned :
   guards_fire w_decode nv2_find pinned nv2_req = false /\
   s_handover (serve_envoy w_decode nv2_find pinned nv2_req) =
     Some {| ho_headers := [("X-Q", "v=2")]; ho_cookies := [("c", "application/json")] |}.
 Proof. split; vm_compute; reflexivity. Qed.
+
+(** C13-F9 (open): Envoy conveys the body in the string field [body] (its default): grpcv3 decodes
+    nothing, the HTTP services decode the body; the candidate repair removes the difference *)
+Definition w9_req : lreq :=
+  {| l_method := "POST"; l_tls := false; l_host := "a.example.com"; l_rawpath := "/c8/lit"; l_query := "";
+     l_hdrs := [("Content-Type", "application/json"); ("Content-Length", "12")];
+     l_body := "{""user"":1}"; l_peer := "10.0.0.1"; l_pack := PackBody |}.
+Lemma F9_refuted :
+  wf_lreqb w9_req = true /\ g_F9_query w9_req QBody = true /\ guards_fire w_decode w7_find repo_now w9_req = true /\
+  s_handover (serve_decision w_decode w7_find repo_now w9_req) = Some {| ho_headers := [("X-Body", "{""user"":1}")]; ho_cookies := [] |} /\
+  s_handover (serve_envoy w_decode w7_find repo_now w9_req) = Some {| ho_headers := [("X-Body", json_empty_string)]; ho_cookies := [] |} /\
+  guards_fire w_decode w7_find all_fixed w9_req = false /\
+  serve_decision w_decode w7_find all_fixed w9_req = serve_envoy w_decode w7_find all_fixed w9_req.
+Proof. repeat split; vm_compute; reflexivity. Qed.
